@@ -1,6 +1,8 @@
 package props
 
 import (
+	"strings"
+	"fmt"
 	"go/ast"
 	"go/types"
 	"regexp"
@@ -17,7 +19,7 @@ func init() {
 			"NOT decided: equivalence of pruning and full scan for all predicates (value-level), range-sharding key arithmetic, the record-writer path for measurements with a fixed shard count.",
 		Assumptions: commonAssumptions,
 		Technique:   "static analysis: predicate truth-table equivalence over normalised comparisons, branch-returns contracts on case-clause regions, sibling call-site tables, loop-carried buffer reset ordering",
-		Rules:       "C11.R1 R2 R3 R4 R5 R6",
+		Rules:       "C11.R1 R2 R3 R4 R5 R6 R7",
 	}
 }
 
@@ -382,6 +384,96 @@ func c11(c *an.Ctx) {
 			}
 		}
 	}
+}
+
+func init() {
+	old := All["C11"].Run
+	All["C11"].Run = func(c *an.Ctx) {
+		old(c)
+		c11cachedGroup(c)
+	}
+}
+
+// c11cachedGroup: the write path reuses the shard group of the previous row
+// without asking the catalogue.  That is right only if the row's time lies in
+// the group's half-open span [start, end): a row at exactly the end belongs to
+// the next group, where time-bounded queries look for it.
+func c11cachedGroup(c *an.Ctx) {
+	const CO = "coordinator"
+	const M = "lib/util/lifted/influx/meta"
+	r := c.Rule("C11.R7", "K-GUARD+K-PREDSHAPE", CO+":createShardGroup — the cached group of the previous row is reused only for a time inside its half-open span")
+	if f := fn(r, M+":ShardGroupInfo.Contains"); f != nil {
+		f.PredShape(r, 0, "!`p0<recv.StartTime` & `p0<recv.EndTime`", "Contains ⇔ start ≤ t < end")
+	}
+	f := fn(r, CO+":createShardGroup")
+	if f == nil {
+		return
+	}
+	reuse := f.Find(an.MReturn("of the cached group (found=true)", func(g *an.Fn, rs *ast.ReturnStmt) bool {
+		return len(rs.Results) == 3 && an.IsBoolLit(g.Info, rs.Results[1], true) && strings.HasPrefix(types.ExprString(rs.Results[0]), "*")
+	}))
+	r.AddSites(reuse.Len())
+	if reuse.Len() == 0 {
+		r.Note("no fast path that reuses the previous group")
+		return
+	}
+	// accepted guards: Contains(ts) itself, or a declared predicate whose result implies a strict upper bound and the lower bound on its time parameter
+	var preds []an.AtomPred
+	preds = append(preds, an.AtomLike(`\.Contains\(p4\)$`, true))
+	for _, v := range f.G.Vs {
+		if !v.IsCond {
+			continue
+		}
+		ast.Inspect(v.Cond, func(n ast.Node) bool {
+			ce, ok := n.(*ast.CallExpr)
+			if !ok {
+				return true
+			}
+			callee := an.Callee(f.Info, ce)
+			if callee == nil || callee.Name() == "Contains" {
+				return true
+			}
+			src := c.P.Src(callee)
+			if src == nil {
+				return true
+			}
+			g := c.P.Fn(src)
+			if g == nil {
+				return true
+			}
+			atoms := map[string]bool{}
+			res, err := g.ResultFormula(0, atoms)
+			if err != nil {
+				return true
+			}
+			// the time parameter
+			tp := -1
+			for i, p := range g.Params {
+				if p != nil && p.Type().String() == "time.Time" {
+					tp = i
+				}
+			}
+			if tp < 0 {
+				return true
+			}
+			strict := false
+			for a := range atoms {
+				if strings.HasPrefix(a, fmt.Sprintf("p%d<", tp)) {
+					if w, err := an.ParseFormula("`"+a+"`", atoms); err == nil {
+						if same, _ := an.Equivalent(an.And(res, w), res, atoms); same {
+							strict = true
+						}
+					}
+				}
+			}
+			if strict {
+				preds = append(preds, an.AtomLike("^"+regexp.QuoteMeta(f.Canon(ce))+"$", true))
+			}
+			return true
+		})
+	}
+	edges := f.EdgesImplyingAny(preds...)
+	f.OnlyVia(r, reuse, edges, "reuse of the cached shard group only when the time is inside [start, end)", "Contains(ts) or a predicate with a strict upper bound")
 }
 
 func loopOf(f *an.Fn, n ast.Node) ast.Node {
